@@ -488,3 +488,68 @@ def set_order_check(repo, tier, seed):
             'functions': funcs, 'undecided': [] if len(obs) == 3 else [{'function': 'ber/der Compiler', 'kind': 'shape',
                                                                         'reason': 'compile_implicit_type / compile_members not found'}],
             'coverage': {'obligations': [o[0] for o in obs]}}
+
+
+# ------------------------------------------------------------------------------------------------------------
+def presence_guard_check(repo, tier, seed):
+    """C07 re-synchronisation: in the addition-decoding loops of PER and OER every read from the decoder is control
+    dependent on the presence bit of that addition (an absent addition consumes nothing, whether or not this version
+    knows it).  Control-dependence obligations on the real AST of MembersType.decode_additions."""
+    import ast
+    from .program import Program
+    prog = Program(repo)
+    obs, viol, funcs = [], [], []
+
+    def mentions(e, name):
+        return any(isinstance(n, ast.Name) and n.id == name for n in ast.walk(e))
+
+    def decoder_calls(stmts):
+        out = []
+        for st in stmts:
+            for n in ast.walk(st):
+                if isinstance(n, ast.Call):
+                    for a in [n.func] + list(n.args):
+                        if mentions(a, 'decoder'):
+                            out.append(n)
+                            break
+        return out
+
+    def ends_with_continue(body):
+        return bool(body) and isinstance(body[-1], ast.Continue)
+
+    for rel in ('asn1tools/codecs/per.py', 'asn1tools/codecs/oer.py'):
+        m = prog.module_by_relpath(rel)
+        f = m.classes['MembersType'].methods.get('decode_additions')
+        if f is None:
+            continue
+        loops = [n for n in ast.walk(f.node) if isinstance(n, ast.For)]
+        nf = 0
+        for lp in loops:
+            guarded = False
+            for st in lp.body:
+                if isinstance(st, ast.If) and mentions(st.test, 'presence_bits'):
+                    if ends_with_continue(st.body) and not decoder_calls(st.body):
+                        guarded = True          # `if not present: continue`
+                        continue
+                    for c in decoder_calls(st.orelse):
+                        obs.append(('%s/presence-guard@%d' % (f.ident, c.lineno), False, ast.unparse(c)[:70]))
+                        nf += 1
+                    for c in decoder_calls(st.body):
+                        obs.append(('%s/presence-guard@%d' % (f.ident, c.lineno), True, ''))
+                        nf += 1
+                    continue
+                for c in decoder_calls([st]):
+                    obs.append(('%s/presence-guard@%d' % (f.ident, c.lineno), guarded, ast.unparse(c)[:70]))
+                    nf += 1
+        funcs.append({'function': f.ident, 'source_sha256': f.sha, 'paths': 1, 'obligations': nf,
+                      'discharged': sum(1 for o in obs[-nf:] if o[1]) if nf else 0, 'outcomes': {}, 'seconds': 0.0, 'inlined_callees': []})
+    for name, ok, txt in obs:
+        if not ok:
+            viol.append({'obligation': name, 'function': name.split('/presence')[0], 'verdict': 'control-dependence obligation failed',
+                         'solver_output': 'decoder read `%s` is not guarded by the presence bit of the addition: an absent addition '
+                                          'would consume input' % txt, 'inputs': None})
+    return {'name': 'presence-guard (control dependence)', 'obligations': len(obs), 'discharged': sum(1 for o in obs if o[1]),
+            'violations': viol, 'functions': funcs,
+            'undecided': [] if len(obs) >= 4 else [{'function': 'per/oer MembersType.decode_additions', 'kind': 'vacuous',
+                                                    'reason': 'fewer than 4 decoder reads found in the addition loops'}],
+            'coverage': {'obligations': [o[0] for o in obs]}}
